@@ -555,9 +555,18 @@ func complete(s *script, o observation) bool {
 
 // run with an immediate replay when the first run shows a loss: kernel timing is
 // outside the model, a loss counts only if it repeats
+// modified: some direction received bytes that are not a prefix of what was sent (changed,
+// reordered or duplicated bytes).  Kernel timing can cut a stream short, it cannot do that:
+// no replay, the observation stands.
+func modified(s *script, o observation) bool {
+	up := specUp(s)
+	return len(o.Up) > len(up) || !bytes.Equal(o.Up, up[:len(o.Up)]) ||
+		len(o.Cl) > len(s.Reply) || !bytes.Equal(o.Cl, s.Reply[:len(o.Cl)])
+}
+
 func runCase(s *script) (observation, int) {
 	a := runOnce(s)
-	if complete(s, a) {
+	if complete(s, a) || modified(s, a) {
 		return a, 1
 	}
 	b := runOnce(s)
@@ -1034,6 +1043,19 @@ func main() {
 		add(s, "tcp-copybuf-boundary-"+name)
 	}
 
+	// directed: heavy traffic in both directions at the same time, nobody closes (two copiers
+	// of one connection busy together)
+	for i := 0; i < run.Scale(9, 45); i++ {
+		s := g.base([]int{kTCP, kDyn, kTCP}[i%3], true)
+		n, m := 100000+r.Intn(60000), 100000+r.Intn(60000)
+		s.Stream, s.Lit = payload(r, n), 0
+		s.Segs = segmentation(r, n, 3)
+		s.Reply, s.RLit = payload(r, m), 0
+		g.ending(s, 0)
+		s.UTrig = uAtConnect
+		add(s, kindName[s.Kind]+"-duplex-both-directions-busy")
+	}
+
 	// 2. tcp+sni
 	hosts := []string{"foo.example", "a.b.example.com", "svc.internal", "x.io"}
 	for i := 0; i < run.Scale(70, 400); i++ {
@@ -1195,7 +1217,7 @@ func main() {
 	bulkRuns := 0
 	for i := 0; i < run.Scale(3, 12); i++ {
 		kind := []int{kTCP, kSNI, kDyn}[i%3]
-		s := &script{Kind: kind, PP: kind != kDyn && r.Intn(2) == 0, Local: randAddr(r), Remote: randAddr(r),
+		s := &script{Kind: kind, PP: r.Intn(2) == 0, Local: randAddr(r), Remote: randAddr(r),
 			CEnd: cClose, UEnd: uStay, UTrig: uOnEOF, Slow: true, Bulk: true}
 		n := 8 << 20
 		if run.Thorough() {
